@@ -135,9 +135,20 @@ static void smap_release(void *slot)
 
 /* ---- hook: registration / grace period must run with every signal blocked ---- */
 static uint64_t mask_checks;
+static int sig_first_lock;
+static uint64_t sig_in_register_window;
 static void bp_hook(int point, const void *ctx)
 {
 	(void) ctx;
+	if (point == URCU_VP_BP_REGISTER_ENTRY && sig_first_lock) {
+		/* deliver a signal exactly in the window between the "not registered" test of the
+		 * read-side fast path and the masking of signals: the handler registers the thread */
+		struct vp_thr *t = vp_self();
+		if (vp_rand_n(&t->rng, 3) == 0) {
+			__atomic_fetch_add(&sig_in_register_window, 1, __ATOMIC_RELAXED);
+			pthread_kill(pthread_self(), SIGUSR2);
+		}
+	}
 	if (point == URCU_VP_BP_ADD_THREAD || point == URCU_VP_GP_POST_FLIP || point == URCU_VP_GP_PRE_FLIP) {
 		sigset_t cur;
 		pthread_sigmask(SIG_SETMASK, NULL, &cur);
@@ -152,7 +163,6 @@ static void bp_hook(int point, const void *ctx)
 /* ---- wave threads ---- */
 static int wave_live_target;
 static int wave_arrived, wave_go;
-static int sig_first_lock;
 static uint64_t sections_total, handler_sections, slot_rechecks;
 
 struct wt { pthread_t tid; int idx; struct vp_rng rng; void *slot; int in_first_lock; };
@@ -267,6 +277,7 @@ int main(int argc, char **argv)
 	int n_upd = (int) vp_arg_long("updaters", 2);
 	int growth = (int) vp_arg_long("growth", 0);	/* 0 natural, 1 force new chunk, 2 reserve (in place) */
 	sig_first_lock = (int) vp_arg_long("sig", 1);
+	int hold_ms = (int) vp_arg_long("hold-ms", 40);
 	vp_tun_bp_sleep_ms = 1;
 	vp_tun_qs_attempts = 10;
 	if (max_live > MAXT - 8)
@@ -313,6 +324,7 @@ int main(int argc, char **argv)
 			uint64_t t0 = vp_now_ns();
 			while (VP_LOAD(wave_arrived) < n && vp_now_ns() - t0 < 60000000000ULL && !vp_nviolations())
 				usleep(200);
+			usleep((useconds_t) hold_ms * 1000);
 			/* census with every wave thread live */
 			vp_peek_bp_arena_snapshot(&ai);
 			int expect_live = n + (int) base.total_used;
@@ -385,6 +397,7 @@ out:
 	vp_counter_add("handler_sections", handler_sections);
 	vp_counter_add("distinct_slot_addresses", (uint64_t) n_distinct);
 	vp_counter_add("mask_checks", mask_checks);
+	vp_counter_add("signals_in_register_window", sig_in_register_window);
 	vp_counter_add("mremap_calls", mremap_calls);
 	vp_counter_add("mremap_forced_fail", mremap_forced_fail);
 	vp_counter_add("mremap_inplace_ok", mremap_inplace_ok);
